@@ -645,6 +645,7 @@ class DecimalRange(Range):
                     raise errors.InterfaceError("hyphen (-) at end must be followed by number")
 
                 # Decide upon the result.
+                range_item = None
                 if lower is None:
                     if upper is None:
                         if ellipsis_found:
